@@ -13,7 +13,7 @@ extra = {
  'OBufFill': f('bufdata_pre')+f('OBufFill'), 'OBufSet': f('bufdata_pre')+f('OBufSet'),
  'OBufSetn': f('bufdata_pre')+f('OBufSetn'), 'OBufGen': f('bufdata_pre')+f('OBufGen'),
  'OBusNew': f('OBusNew'), 'OBusSet': f('bus_pre')+f('OBusSet'), 'OBusSetn': f('bus_pre')+f('OBusSetn'),
- 'OBusSetPairs': f('bus_pre')+f('OBusSetPairs'), 'ORaw': f('ORaw'), 'OBusSub': f('OBusSub'), 'OFreeDefaultGroup': f('dgroups'), 'OBufSendList': f('OBufSendList'), 'OBufGetToList': f('OBufGetToList'), 'OBufNewSendList': f('OBufNewSendList'), 'OSendDefaultGroups': f('dgroups'),
+ 'OBusSetPairs': f('bus_pre')+f('OBusSetPairs'), 'ORaw': f('ORaw'), 'OBusSub': f('OBusSub'), 'OFreeDefaultGroup': f('dgroups'), 'OPlay': f('OPlay'), 'OBufSendList': f('OBufSendList'), 'OBufGetToList': f('OBufGetToList'), 'OBufNewSendList': f('OBufNewSendList'), 'OSendDefaultGroups': f('dgroups'),
 }
 names=list(optest.ctors)
 groups={'C17_ops1.v': names[:26], 'C17_ops2.v': names[26:47], 'C17_ops3.v': names[47:]}
@@ -25,10 +25,10 @@ Require Import SC3.model.ProtoGrammar SC3.model.Proto SC3.gen.Gen_proto.
 Require Import SC3.proofs.C17_gram SC3.proofs.C17_args SC3.proofs.C17_bind SC3.proofs.C17_life SC3.proofs.C17_conform%s.
 Open Scope string_scope. Open Scope Z_scope. Open Scope list_scope.
 '''
-open('/verif/coq/proofs/C17_optac.v','w').write((HDR % ('Tactics and auxiliary lemmas.','')) + optest.tac)
+open(optest.ROOT+'/proofs/C17_optac.v','w').write((HDR % ('Tactics and auxiliary lemmas.','')) + optest.tac)
 for fn, ns in groups.items():
     body = HDR % ('Part %s.' % fn[7], ' SC3.proofs.C17_optac')
     for nme in ns:
         body += optest.lemma(nme, D + extra.get(nme,''), 'Qed.')
-    open('/verif/coq/proofs/'+fn,'w').write(body)
+    open(optest.ROOT+'/proofs/'+fn,'w').write(body)
 print({k:len(v) for k,v in groups.items()})
